@@ -246,6 +246,13 @@ def fallback_class(acc, cls, text, extra=None):
     if tr[0].trs_is_error() and not d.e_flags:
         acc.violation('fallback_no_error_flag', f"C11:fallback_no_error_flag:{cls}:{text}", case, got=tr[0].trs)
         return
+    if tr[0].trs_is_error():
+        # ... and the tract itself carries it, also when the parse is not committed (the returned list is then the only carrier)
+        nc = list(_p.PLSSDesc(text, config=cfg).parse(commit=False))
+        if not tr[0].e_flags or not tr[0].desc_is_flawed or len(nc) != 1 or not nc[0].e_flags:
+            acc.violation('fallback_no_error_flag', f"C11:fallback_no_error_flag:tract:{cls}:{text}", case,
+                          got=[tr[0].trs, tr[0].e_flags, [t.e_flags for t in nc]], note='error flag missing on the fallback tract itself')
+            return
     acc.guard('fallback_' + cls)
 
 
